@@ -752,7 +752,9 @@ pub fn run_check(pc: &PropertyCheck, tier: Tier, verif_dir: &str) -> i32 {
       // minimisation, and only the first twelve new ones are minimised (the
       // others are reported as they were found)
       if let Some(k) = match_known(&known, pc.id, s.name(), &r.violation) {
-        let line = format!("KNOWN-FINDING: property={} {} [scenario={} rule={} site={}]", pc.id, k.what, s.name(), r.violation.rule, r.violation.site);
+        // one line per listed finding (scenario, rule, listed site fragments),
+        // however many concrete sites matched it
+        let line = format!("KNOWN-FINDING: property={} {} [scenario={} rule={} site~{:?}]", pc.id, k.what, s.name(), r.violation.rule, k.site_contains);
         if !known_lines.contains(&line) {
           known_lines.push(line);
         }
